@@ -158,7 +158,7 @@ pub fn explore(ctx: &Ctx) {
 }
 
 pub fn replay(ctx: &Ctx, _clause: &str, case: &Value) {
-    let c: PtCase = serde_json::from_value(case.clone()).expect("case");
+    let c: PtCase = serde_json::from_value::<PtCase>(case.clone()).map(PtCase::fix).expect("case");
     let mut l = Local::default();
     let r = c.run();
     for s in SHIFTS {
